@@ -41,7 +41,7 @@ pub const INFO: Info = Info {
            non-zero modification slots, termini, flags, 0..3 proteins; every length 0..8 with a fully distinct \
            modification vector. NOT generated (outside the statement, FIXES.md): FASTA text on which \
            Fasta::parse panics (bare '>' header followed by sequence, sequence before the first header) and inputs \
-           with an empty digest list (Parameters::build panics in group_digests) - the generator checks with the \
+           with an empty digest list (Parameters::build gives the empty database) - the generator checks with the \
            real digest that at least one digest exists; overlapping static modifications (HashMap order); \
            modification vectors shorter than the sequence (rev7). Non-trivial: db7 = the database holds at least \
            one decoy and one target; rev7 = length >= 4 (something moves). Distinct by request line.",
@@ -523,9 +523,8 @@ fn has_digest(r: &Req) -> bool {
 }
 
 fn emit_db(emit: &mut dyn FnMut(Case), r: &Req, tag: &'static str) -> bool {
-    if !has_digest(r) {
-        return false;
-    }
+    // no digest at all: the empty database (group_digests is guarded; it used to panic) - kept, as a trivial case
+    let nodigest = !has_digest(r);
     let r2 = r.clone();
     let peps = match std::panic::catch_unwind(move || run_db(&r2).0) {
         Ok(p) => p,
@@ -539,6 +538,10 @@ fn emit_db(emit: &mut dyn FnMut(Case), r: &Req, tag: &'static str) -> bool {
     let modified = peps.iter().any(|p| p.decoy && p.modifications.iter().any(|m| *m != 0.0));
     let shared = peps.iter().any(|p| p.proteins.len() > 1);
     let short = peps.iter().any(|p| p.sequence.len() <= 3);
+    if nodigest {
+        emit(Case::new(write_req(r)).tag(tag).tag("db:no-digest-empty-database").nontrivial(false));
+        return true;
+    }
     emit(Case::new(write_req(r))
         .tag(tag)
         .tag(if r.gen { "db:generate_decoys" } else { "db:fasta_decoys" })
@@ -624,6 +627,14 @@ fn directed(emit: &mut dyn FnMut(Case)) {
     r.enz.min_len = Some(2);
     r.enz.max_len = Some(5);
     emit_db(emit, &r, "db:directed");
+    // no digest at all -> the empty database: one short protein below min_len; only tagged records while decoys
+    // are generated; an empty FASTA; a FASTA of blank lines
+    for gen in [true, false] {
+        emit_db(emit, &base(">P1\nAAK\n", gen), "db:directed");
+        emit_db(emit, &base("", gen), "db:directed");
+        emit_db(emit, &base("\n\n", gen), "db:directed");
+    }
+    emit_db(emit, &base(">rev_D1\nCCCCCKGGGGGK\n>sp|rev_D2\nAAAAAKSSSSSK\n", true), "db:directed");
     // invalid residues are skipped; mass window cutting the list
     let mut r = base(">P1\nAGSMKABZKXXKAGGSK\n", true);
     r.lo = 300.0;
